@@ -4,7 +4,9 @@ package main
 
 import (
 	"fmt"
+	"go/ast"
 	"go/constant"
+	"go/token"
 	"go/types"
 	"strings"
 
@@ -17,19 +19,21 @@ type phiSel struct {
 }
 
 type Env struct {
-	scopeAt    *ssa.BasicBlock // block whose scope decides which same-named local is meant (loop obligations)
-	fe         *FuncEnc
-	fr         *Frame // nil in callee/global mode
-	st         *State
-	old        *State
-	vars       map[string]Term
-	phiEdge    *phiSel
-	loopHdr    *ssa.BasicBlock
-	pkg        *types.Package
-	at         *ssa.BasicBlock // evaluation point (for local-name resolution), may be nil
-	calleeMode bool
-	curCall    *CallSite // sink evaluation: the call site the assertion is attached to
-	curName    string
+	scopeAt     *ssa.BasicBlock // block whose scope decides which same-named local is meant (loop obligations)
+	fe          *FuncEnc
+	fr          *Frame // nil in callee/global mode
+	st          *State
+	old         *State
+	vars        map[string]Term
+	phiEdge     *phiSel
+	loopHdr     *ssa.BasicBlock
+	inOld       bool
+	entryParams bool
+	pkg         *types.Package
+	at          *ssa.BasicBlock // evaluation point (for local-name resolution), may be nil
+	calleeMode  bool
+	curCall     *CallSite // sink evaluation: the call site the assertion is attached to
+	curName     string
 }
 
 func (fr *Frame) envAt(st *State) *Env {
@@ -158,14 +162,27 @@ func (e *Env) eval(x *SExpr) Term {
 			e.fail("old() not available here")
 		}
 		n.st = e.old
+		n.inOld = true
 		return n.eval(x.Args[0])
 	case "field":
 		return e.field(x)
 	case "addr":
 		// &base.f for a pointer base: the same abstract interior pointer the encoder gives a FieldAddr value
 		a := x.Args[0]
+		if a.Op == "ident" && e.fr != nil && !e.calleeMode {
+			// &local for a local that lives in memory: the cell itself
+			for _, b := range e.fr.fn.Blocks {
+				for _, in := range b.Instrs {
+					if al, ok := in.(*ssa.Alloc); ok && al.Comment == a.Name {
+						if t, ok := e.fr.vals[al]; ok {
+							return t
+						}
+					}
+				}
+			}
+		}
 		if a.Op != "field" {
-			e.fail("& needs a field selector, got %s", a)
+			e.fail("& needs a field selector or a local that lives in memory, got %s", a)
 		}
 		base := e.eval(a.Args[0])
 		st, named, isPtr := derefStruct(base.T)
@@ -301,6 +318,15 @@ func (e *Env) ident(name string) Term {
 	fe := e.fe
 	if t, ok := e.vars[name]; ok {
 		return t
+	}
+	if e.fr != nil && !e.calleeMode && (e.inOld || e.entryParams) {
+		// a parameter named in a postcondition, in an assertion at a call, or under old(): its value on entry, whatever was
+		// assigned to it later (loop invariants see the current value)
+		for i, p := range e.fr.fn.Params {
+			if p.Name() == name {
+				return e.fr.params[i]
+			}
+		}
 	}
 	if e.fr != nil && !e.calleeMode {
 		fr := e.fr
@@ -510,17 +536,66 @@ func (fr *Frame) localByName(name string, at *ssa.BasicBlock) ssa.Value {
 			if at != nil && !b.Dominates(at) {
 				continue
 			}
-			if best != nil && best == d.X {
+			X := d.X
+			if c, isConst := X.(*ssa.Const); isConst && c.Value == nil && d.Pos() == obj.Pos() {
+				// x := <composite literal>: this go/ssa records the zero value at the defining identifier; the value the
+				// variable gets is the one recorded for the right-hand side expression
+				if v := fr.rhsValueOfDef(d.Pos()); v != nil {
+					X = v
+				}
+			}
+			if best != nil && best == X {
 				continue
 			}
 			// prefer the latest dominating definition
 			if best == nil || bestBlock.Dominates(b) {
-				best, bestBlock = d.X, b
+				best, bestBlock = X, b
 			}
 			count++
 		}
 	}
 	return best
+}
+
+// rhsValueOfDef: for the defining identifier at pos in "lhs := rhs" / "var lhs = rhs", the SSA value recorded for rhs.
+func (fr *Frame) rhsValueOfDef(pos token.Pos) ssa.Value {
+	syn := fr.fn.Syntax()
+	if syn == nil {
+		return nil
+	}
+	var rhs ast.Expr
+	ast.Inspect(syn, func(n ast.Node) bool {
+		switch x := n.(type) {
+		case *ast.AssignStmt:
+			if len(x.Lhs) == len(x.Rhs) {
+				for i, l := range x.Lhs {
+					if l.Pos() == pos {
+						rhs = x.Rhs[i]
+					}
+				}
+			}
+		case *ast.ValueSpec:
+			if len(x.Names) == len(x.Values) {
+				for i, l := range x.Names {
+					if l.Pos() == pos {
+						rhs = x.Values[i]
+					}
+				}
+			}
+		}
+		return rhs == nil
+	})
+	if rhs == nil {
+		return nil
+	}
+	for _, b := range fr.fn.Blocks {
+		for _, in := range b.Instrs {
+			if d, ok := in.(*ssa.DebugRef); ok && !d.IsAddr && d.Expr == rhs {
+				return d.X
+			}
+		}
+	}
+	return nil
 }
 
 func derefStruct(T types.Type) (st *types.Struct, named types.Type, isPtr bool) {
